@@ -18,7 +18,7 @@ from sa import AnalysisError
 from sa.astutil import unparse, enclosing, in_block
 from sa.cfg import build_cfg, EXC
 from sa.consts import fold, NotConst, module_env
-from sa.dataflow import Provenance, ControlDependence
+from sa.dataflow import Provenance, ControlDependence, target_names
 from sa.effects import get_effects, fmt_path
 from sa.loader import walk_shallow, walk_expr_shallow
 from sa.resolve import get_resolver
@@ -231,14 +231,16 @@ def rule_orig_mnem(ctx):
     ff = p.func("writer.get_formatter_function")
     n = 0
     fmts = _formatters(ff)
-    if len(fmts) < 2:
+    if len(fmts) < 2 and not (fmts and _generic_formatter(ff) is not None):
         raise AnalysisError("cannot find the two line-formatting functions in writer.get_formatter_function")
     for nf, body in fmts:
         n += 1
         tup = body.right
         site = "%s#%s" % (ff.qual, nf.name)
         first = tup.elts[0] if isinstance(tup, ast.Tuple) and tup.elts else None
+        first = _resolve_local(nf, first) if first is not None else None
         attrs = {a.attr for a in ast.walk(first) if isinstance(a, ast.Attribute)} if first is not None else set()
+        attrs -= {"ljust", "rjust", "center", "format"}
         ctx.check("original_mnemonic" in attrs and not (attrs & {"mnemonic", "useful_mnemonic"}), "WR.ORIG-MNEM", site, nf, body,
                   "the mnemonic field of the written line is item.original_mnemonic",
                   "the written mnemonic comes from %s: session names ('RHO:1', 'UNKNOWN') are written to file and duplicates/"
@@ -256,9 +258,35 @@ def rule_orig_mnem(ctx):
     ctx.floor("WR.ORIG-MNEM", 2)
 
 
+def _generic_formatter(ff):
+    """get_formatter_function builds ONE formatter whose fields are picked by names computed outside it (`getattr(item, key)` /
+    `item[key]`, key a variable of get_formatter_function set from the order): the per-order rules cannot see its fields"""
+    keys = set()
+    for a in walk_shallow(ff.node):
+        if isinstance(a, ast.Assign):
+            for t in a.targets:
+                keys |= set(target_names(t))
+    keys -= set(ff.params())
+    if not keys:
+        return None
+    for x in ast.walk(ff.node):
+        if isinstance(x, ast.Call) and isinstance(x.func, ast.Name) and x.func.id == "getattr" and len(x.args) >= 2 \
+                and isinstance(x.args[1], ast.Name) and x.args[1].id in keys:
+            return x
+        if isinstance(x, ast.Subscript) and isinstance(x.slice, ast.Name) and x.slice.id in keys and isinstance(x.ctx, ast.Load):
+            return x
+    return None
+
+
 def rule_template(ctx):
     p = ctx.p
     ff = p.func("writer.get_formatter_function")
+    gen = _generic_formatter(ff)
+    if gen is not None:
+        ctx.undecided("WR.TEMPLATE", ff.qual + "#template", ff, gen, "one formatter serves both orders and picks its fields by computed name "
+                      "(`%s`): field-by-field template rules are not decided in this form" % unparse(gen))
+        ctx.floor("WR.TEMPLATE", 0)
+        return
     n = 0
     for nf, b in _formatters(ff):
         n += 1
@@ -451,9 +479,17 @@ def rule_hdr_post(ctx):
             for k in c.keywords:
                 pr.append("keyword argument %s=" % k.arg) if k.arg not in ("mnemonic", "unit", "value", "descr") else None
             if len(args) >= 4:
-                def fields(e):
-                    return {s.slice.value for s in ast.walk(e) if isinstance(s, ast.Subscript) and isinstance(s.value, ast.Name)
-                            and s.value.id == kw and isinstance(s.slice, ast.Constant)}
+                def fields(e, depth=0):
+                    out = {s.slice.value for s in ast.walk(e) if isinstance(s, ast.Subscript) and isinstance(s.value, ast.Name)
+                           and s.value.id == kw and isinstance(s.slice, ast.Constant)}
+                    # a local that holds the field (the result of an expanded helper): the fields of its definitions
+                    if depth < 3:
+                        for x in ast.walk(e):
+                            if isinstance(x, ast.Name) and x.id != kw and isinstance(x.ctx, ast.Load):
+                                for a_ in walk_shallow(fm.node):
+                                    if isinstance(a_, ast.Assign) and any(isinstance(t, ast.Name) and t.id == x.id for t in a_.targets):
+                                        out |= fields(a_.value, depth + 1)
+                    return out
                 if fields(args[0]) != {"name"} or not isinstance(args[0], ast.Subscript):
                     pr.append("mnemonic argument is `%s`" % unparse(args[0]))
                 if fields(args[1]) != {"unit"}:
@@ -668,6 +704,12 @@ def rule_ord_bijection(ctx):
             rmap[const] = m
     site = "writer/reader#order-bijection"
     problems = []
+    gen = _generic_formatter(ff)
+    if gen is not None and not wmap:
+        ctx.undecided("ORD.BIJECTION", site, ff, gen, "one formatter serves both orders and picks its fields by computed name (`%s`): "
+                      "the writer's (before-colon, after-colon) choice per order constant is not decided in this form" % unparse(gen))
+        ctx.floor("ORD.BIJECTION", 0)
+        return
     for const in ("value:descr", "descr:value"):
         if const not in wmap:
             problems.append("writer has no formatter for order %r" % const)
@@ -782,3 +824,57 @@ def rule_version_consistency(ctx):
                   "the layout of section %s is looked up for the version that the VERS item declares" % unparse(c.args[0]),
                   "the layout is looked up for `%s`, not for `%s` which decides the VERS item: a file can declare one version and be laid "
                   "out for another, and the reader (which goes by VERS) swaps value and description" % (unparse(a), sorted(vnames)[0]))
+
+
+def rule_loop_closures(ctx):
+    """WR.LATE-BINDING: a function object created inside a loop (lambda / def, also inside a comprehension) that reads the loop
+    variable as a free variable sees the value the variable has when the function is *called*; stored for later (a table of
+    per-column formatters) every entry then uses the last value of the loop.  Binding through a default argument (`j=j`) is the
+    accepted form."""
+    p = ctx.p
+    n = 0
+    bad = []
+    for q, fi in sorted(p.functions.items()):
+        if fi.module.name not in ("writer", "las", "excel") or isinstance(fi.node, ast.Lambda):
+            continue
+        for sub in walk_shallow(fi.node):
+            loops = []
+            if isinstance(sub, ast.For):
+                loops.append((set(target_names(sub.target)), sub.body))
+            elif isinstance(sub, (ast.ListComp, ast.SetComp, ast.DictComp, ast.GeneratorExp)):
+                tv = set()
+                for g in sub.generators:
+                    tv |= set(target_names(g.target))
+                loops.append((tv, [sub.elt] if not isinstance(sub, ast.DictComp) else [sub.key, sub.value]))
+            for tv, body in loops:
+                for st in body:
+                    for fn in ast.walk(st):
+                        if not isinstance(fn, (ast.Lambda, ast.FunctionDef)):
+                            continue
+                        a = fn.args
+                        bound = {x.arg for x in a.args + a.kwonlyargs + getattr(a, "posonlyargs", [])}
+                        if a.vararg:
+                            bound.add(a.vararg.arg)
+                        if a.kwarg:
+                            bound.add(a.kwarg.arg)
+                        inner = fn.body if isinstance(fn.body, list) else [fn.body]
+                        bound |= {x.id for b_ in inner for x in ast.walk(b_) if isinstance(x, ast.Name) and isinstance(x.ctx, ast.Store)}
+                        free = {x.id for b_ in inner for x in ast.walk(b_) if isinstance(x, ast.Name) and isinstance(x.ctx, ast.Load)} - bound
+                        n += 1
+                        captured = sorted(free & tv)
+                        if not captured:
+                            continue
+                        # called on the spot (inside the same iteration) is fine: only flag functions that outlive the iteration
+                        par = getattr(fn, "_parent", None)
+                        immediate = isinstance(par, ast.Call) and par.func is fn
+                        if not immediate:
+                            bad.append((fi, fn, captured))
+    site = "writer#functions-created-in-loops"
+    if bad:
+        fi, fn, captured = bad[0]
+        ctx.bad("WR.LATE-BINDING", site, fi, fn, "`%s` in %s is created inside a loop and reads the loop variable %s when it is called, not "
+                "when it is created: every function of the table uses the last value (all columns formatted like the last one)" % (
+                    unparse(fn)[:70], fi.qual, captured))
+    else:
+        ctx.ok("WR.LATE-BINDING", site, None, 0, "no stored function reads a loop variable late (%d functions created in loops)" % n,
+               nontrivial=n > 0)
